@@ -167,3 +167,32 @@
              (= (pieceAt q (bvadd t #x01)) #x01)))))
 (define-fun succ ((p Pos) (m Mv)) Pos
   (succCore p m (ite (and (isDouble p m) (existsLegalEP p m)) (midSq m) #x00)))
+
+; ------------------------------------------------------------------ local conditions for making a move
+; lightPos: the part of validity that move making depends on (no attack computation)
+(define-fun lightPos ((p Pos)) Bool
+  (and (wfPos p) (onehot (kingOf p #x00)) (onehot (kingOf p #x01))
+       (= (bvand (pP p) (bvor rank1 rank8)) bb0) (rightsOK p) (epOK p)))
+(define-fun castlePattern ((p Pos) (f Sq) (t Sq)) Bool
+  (let ((me (colSet p (stm p))) (occ (occOf p)))
+  (ite (= (stm p) #x00)
+       (or (and (= f #x04) (= t #x06) (has (bvand (pR p) me) #x07) (not (has occ #x05)) (not (has occ #x06)))
+           (and (= f #x04) (= t #x02) (has (bvand (pR p) me) #x00) (not (has occ #x03)) (not (has occ #x02))))
+       (or (and (= f #x3c) (= t #x3e) (has (bvand (pR p) me) #x3f) (not (has occ #x3d)) (not (has occ #x3e)))
+           (and (= f #x3c) (= t #x3a) (has (bvand (pR p) me) #x38) (not (has occ #x3b)) (not (has occ #x3a)))))))
+; movable: what MakeMove needs of a move (implied by pseudo-legality in a valid position, lemma movableFromPseudo)
+(define-fun movable ((p Pos) (m Mv)) Bool
+  (let ((f (mvFrom m)) (t (mvTo m)) (pr (mvPromo m)) (me (colSet p (stm p))) (opp (colSet p (other (stm p)))) (occ (occOf p)))
+  (let ((pc (pieceAt p f)) (cs (capSq p m)))
+    (and (mvOK m) (has me f) (not (has me t))
+         (or (= pr #x00) (and (= pc #x01) (bvuge pr #x02) (bvule pr #x05)))
+         ; en passant: a pawn arriving on the target square captures the pawn behind it
+         (=> (and (= pc #x01) (not (= (ep p) #x00)) (= t (ep p)))
+             (and (not (= (fileOf f) (fileOf t))) (= (rankOf f) (rankOf cs)) (has (bvand (pP p) opp) cs) (not (has occ t))))
+         ; a double push starts on the pawn's home rank and crosses an empty square onto an empty square
+         (=> (and (= pc #x01) (= (absd (rankOf f) (rankOf t)) #x02))
+             (and (= (fileOf f) (fileOf t)) (startRank (stm p) f) (not (has occ t)) (not (has occ (midSq m)))))
+         (=> (= pc #x01) (bvule (absd (rankOf f) (rankOf t)) #x02))
+         ; a king moving two files is one of the four castling moves with its rook in the corner
+         (=> (and (= pc #x06) (= (absd (fileOf f) (fileOf t)) #x02)) (castlePattern p f t))
+         (=> (= pc #x06) (bvule (absd (fileOf f) (fileOf t)) #x02))))))
